@@ -22,7 +22,7 @@ EXTENDS SelectRel
 -----------------------------------------------------------------------------
 (* Functional refinements: what helpers.py / abstract.py do                *)
 
-CONSTANT Dev      \* "none" | "ignoredir" | "wrongend" | "lesseq" : named deviations, must break a law
+CONSTANT Dev      \* "none" | "ignoredir" | "wrongend" | "lesseq" | "modgroups" : named deviations, must break a law
 
 \* stable sort (list.sort with reverse=True keeps the original order of equal elements)
 PosStable(pop, d, i) ==
@@ -49,8 +49,8 @@ ExtendTrimAsCoded(pop, new, N) ==
 GroupsAsCoded(size, ng, na, resid) ==
     LET slice(lo, hi) == [k \in 1..(IF MinN(hi, size) - lo + 1 > 0 THEN MinN(hi, size) - lo + 1 ELSE 0) |-> lo + k - 1]
         base == [g \in 1..ng |-> slice((g-1)*na + 1, g*na)]
-        r == size % ng
-    IN IF resid /\ r # 0 THEN Append(base, slice(size - r + 1, size)) ELSE base
+        r == IF Dev = "modgroups" THEN size % ng ELSE size - ng * na
+    IN IF resid /\ r > 0 THEN Append(base, slice(size - r + 1, size)) ELSE base
 
 -----------------------------------------------------------------------------
 (* The bounded case space (shared by the exhaustive check and by the       *)
@@ -77,8 +77,8 @@ NextGreedy == c.fam = "greedy" /\ c.s <= MaxPair /\ \E p \in Heads(c.s, c.head),
               c' = [kind |-> "greedy", pop |-> p, new |-> q]
 NextExt == c.fam = "ext" /\ c.s <= MaxPair /\ \E t \in 0..MaxPair : \E p \in Heads(c.s, c.head), q \in [1..t -> Alpha] :
               c' = [kind |-> "ext", pop |-> p, new |-> q, N |-> c.s]
-NextGroup == c.fam = "group" /\ c.head = (CHOOSE a \in Alpha : TRUE) /\ \E g \in 1..c.s, r \in BOOLEAN :
-              c' = [kind |-> "group", size |-> c.s, ng |-> g, na |-> c.s \div g, resid |-> r]
+NextGroup == c.fam = "group" /\ c.head = (CHOOSE a \in Alpha : TRUE) /\ \E g \in 1..c.s, r \in BOOLEAN : \E na \in 1..(c.s \div g) :
+              c' = [kind |-> "group", size |-> c.s, ng |-> g, na |-> na, resid |-> r]
 Next == c.kind = "pre" /\ (NextSel \/ NextGreedy \/ NextExt \/ NextGroup)
 Spec == Init /\ [][Next]_c
 
